@@ -11,6 +11,8 @@ use crate::real::*;
 pub struct C07;
 
 const SWEEP_MAGIC: u32 = u32::MAX;
+/// value spread over 64 one-bit columns by `bits(64, ..)` in the wide batches (bits 62, 2, 0)
+const WIDE_BITS: u64 = 0x4000_0000_0000_0005;
 const BATCH: usize = 8;
 
 /// the 40-value boundary pool for width w
@@ -137,7 +139,12 @@ fn run_batch(out: &mut CaseOut, w: usize, vals: &[i64], via: &[Via], zx_row: boo
         };
         let mut es = es;
         if wide {
-            es.extend((0..64).map(|k| Entry::X(k % 2 == 0)));
+            if k % 2 == 0 {
+                es.extend((0..64).map(|k| Entry::X(k % 2 == 0)));
+            } else {
+                // one bits(64, ..) entry over the 64 columns: column F_j expects bit 63-j
+                es.push(Entry::Bits(64, Expr::lit(WIDE_BITS)));
+            }
         }
         if with_bits {
             es.insert(0, Entry::Bits(2, Expr::lit(14)));
@@ -202,7 +209,18 @@ fn run_batch(out: &mut CaseOut, w: usize, vals: &[i64], via: &[Via], zx_row: boo
         let sent = &real.log[k + 1].inputs;
         let get_in = |v: &Vec<(String, InVal, bool)>, n: &str| v.iter().find(|e| e.0 == n).map(|e| e.1);
         let get_exp = |n: &str| row.outputs.iter().find(|o| o.name == n).map(|o| o.expected);
-        if wide && !row.outputs.is_empty() {
+        if wide && !row.outputs.is_empty() && rv.is_some() && k % 2 == 1 {
+            for j in 0..64usize {
+                let want = ((WIDE_BITS >> (63 - j)) & 1) as i64;
+                if get_exp(&format!("F{j}")) != Some(ExpVal::Val(want)) {
+                    out.fail(
+                        "c07:bits-entry",
+                        format!("width {w}: bits(64, {WIDE_BITS:#x}) over F0..F63: F{j} expects {:?}, should be bit {} of the value = {want}", get_exp(&format!("F{j}")), 63 - j),
+                    );
+                    return;
+                }
+            }
+        } else if wide && !row.outputs.is_empty() {
             if let Some(bad) = (0..64).map(|k| format!("F{k}")).find(|n| get_exp(n) != Some(ExpVal::X)) {
                 out.fail("c07:zx-not-passed-through", format!("width {w}: the expected column {bad} (one of 64 beyond the first columns) holds X; the row reports {:?}", get_exp(&bad)));
                 return;
@@ -343,7 +361,7 @@ impl Property for C07 {
         "C07"
     }
     fn rule(&self) -> &'static str {
-        "profile `width`: (a) exhaustive sweep of every width 1..=64 x a 40-value boundary pool (0, +-1, MIN, MAX, 2^w-1, 2^w, 2^w+1, -2^w, 2^(w-1), ...) delivered directly / through arithmetic / through let, 8 values per program, on an input column, an output's expected column, a bidirectional signal's input and `_out` column and a virtual signal's column, plus a `Z x z Z X` row, in every second batch behind a `bits(2, 14)` entry feeding two extra inputs (3 and 1 bits wide: each gets exactly one bit of the value) (row entries and header columns then no longer line up one to one), in every fifth batch with 64 more one-bit outputs behind that are expected `X` in every row (columns 64 and up); (b) random (width, 64-bit value) pairs, one case in ten a fixed program with X and C entries on inputs wider than one bit (they stand for 0 / 1 and 0, 1, 0 at any width), values returning to the one two rows earlier (v, w, v), in a third of the programs the driver fails on one row's call and the caller goes on. Oracle: value & (2^w-1) in u64 (w=64 unchanged) against the input as received by the driver, row.inputs and the expected values; virtual column keeps 64 bits. Non-trivial: w >= 33 or the value has bits above w; distinct by (width, values, path)."
+        "profile `width`: (a) exhaustive sweep of every width 1..=64 x a 40-value boundary pool (0, +-1, MIN, MAX, 2^w-1, 2^w, 2^w+1, -2^w, 2^(w-1), ...) delivered directly / through arithmetic / through let, 8 values per program, on an input column, an output's expected column, a bidirectional signal's input and `_out` column and a virtual signal's column, plus a `Z x z Z X` row, in every second batch behind a `bits(2, 14)` entry feeding two extra inputs (3 and 1 bits wide: each gets exactly one bit of the value) (row entries and header columns then no longer line up one to one), in every fifth batch with 64 more one-bit outputs behind that are expected `X` in every row, or filled bit by bit by one `bits(64, 0x4000000000000005)` entry (columns 64 and up); (b) random (width, 64-bit value) pairs, one case in ten a fixed program with X and C entries on inputs wider than one bit (they stand for 0 / 1 and 0, 1, 0 at any width), values returning to the one two rows earlier (v, w, v), in a third of the programs the driver fails on one row's call and the caller goes on. Oracle: value & (2^w-1) in u64 (w=64 unchanged) against the input as received by the driver, row.inputs and the expected values; virtual column keeps 64 bits. Non-trivial: w >= 33 or the value has bits above w; distinct by (width, values, path)."
     }
     fn cases(&self, tier: Tier) -> u64 {
         match tier {
